@@ -18,6 +18,8 @@ import (
 	"fmt"
 	"io"
 	"net"
+	"os"
+	"runtime/debug"
 	"time"
 
 	"github.com/basekick-labs/arc/internal/simrt"
@@ -344,6 +346,10 @@ func (e *end) Close() error {
 		return nil
 	}
 	e.closed = true
+	// debugging aid for replays: who closed which end, with the call stack
+	if os.Getenv("VERIF_C24_CLOSESTACK") != "" {
+		fmt.Fprintf(os.Stderr, "CLOSE %s by %s t=%d\n%s\n", e.l.name(), e.who(), simrt.SimNow(), debug.Stack())
+	}
 	if !e.l.half[e.side].blackh {
 		// on a half-open link neither FIN nor RST reaches the other end
 		e.l.half[e.side].wclosed = true
